@@ -240,6 +240,64 @@ func checkC10(c c10Case) *ev.Failure {
 		}
 	}
 
+	// A2. a snapshot holds what the store held when Save was called: the squasher saves a full store, hands the writer
+	// to background work and goes on merging the next segment into the same object before the file is written
+	{
+		after := []sdsl.Op{{Ord: 0, Key: sdsl.Bin("zz-after-the-boundary"), Val: sdsl.Bin("late")}}
+		if len(c.Content.KV) > 0 {
+			k := c.Content.KV[0].K
+			after = append(after, sdsl.Op{Ord: 1, Key: k, Val: sdsl.Bin("changed after the boundary")})
+			if len(c.Content.KV) > 1 {
+				after = append(after, sdsl.Op{Ord: 2, Key: c.Content.KV[1].K, Del: true})
+			}
+		}
+		var wantPrefixes []string
+		seenP := map[string]bool{}
+		for _, p := range c.Content.Prefixes {
+			if !seenP[string(p)] {
+				wantPrefixes = append(wantPrefixes, string(p))
+				seenP[string(p)] = true
+			}
+		}
+		file, w, err := full.Save(c.Initial + 11)
+		if err != nil {
+			return ev.Failf("full/save-error", "%v", err)
+		}
+		if _, err := execBlock(full, kind, c.Initial+11, after); err != nil {
+			return ev.Failf("exec-error", "writing after Save failed: %v", err)
+		}
+		if err := w.Write(ctx); err != nil {
+			return ev.Failf("full/save-error", "%v", err)
+		}
+		back := e.cfg.NewFullKV(nop)
+		if err := back.Load(ctx, file); err != nil {
+			return ev.Failf("full/load-error", "%v", err)
+		}
+		if f := kvEq("full-save-then-write-later", want, sdsl.Snapshot(back)); f != nil {
+			return f
+		}
+		pfile, pw, err := part.Save(c.Initial + 11)
+		if err != nil {
+			return ev.Failf("partial/save-error", "%v", err)
+		}
+		if _, err := execBlock(part, kind, c.Initial+11, after); err != nil {
+			return ev.Failf("exec-error", "writing after Save failed: %v", err)
+		}
+		if err := pw.Write(ctx); err != nil {
+			return ev.Failf("partial/save-error", "%v", err)
+		}
+		pback := e.cfg.NewPartialKV(c.Initial+5, nop)
+		if err := pback.Load(ctx, pfile); err != nil {
+			return ev.Failf("partial/load-error", "%v", err)
+		}
+		if f := kvEq("partial-save-then-write-later", want, sdsl.Snapshot(pback)); f != nil {
+			return f
+		}
+		if f := prefixesEq("partial-save-then-write-later", wantPrefixes, pback.DeletedPrefixes); f != nil {
+			return f
+		}
+	}
+
 	// B. names: a fresh module directory with the generated snapshot set
 	e2 := newEnv(kind, c.Initial)
 	defer e2.close()
